@@ -1040,6 +1040,10 @@ func (r *FnRun) builtinAppend(st *State, site ssa.Instruction, args []Val, resT 
 		r.check(st, "frame", "", site, goal, "in-place append writes inside the modifies frame")
 	}
 	r.setHeap(st, "A", sIte(inPlace, sx("store", a, s.Bas, inPlaceArr), sx("store", a, p, newArr)))
+	// summary, derivable in both cases from the facts above (stated so that proofs about the
+	// result as a sequence do not depend on the solver finding the case split): the result is
+	// the old contents followed by the added bytes
+	st.assume(sEq(sx("seqOf", sx("select", st.heap["A"], nb), no, newLen), sx("bcat", oldSeq, addSeq)))
 	return Val{K: KSlice, T: resT, Bas: nb, Off: no, Len: newLen, Cap: nc}
 }
 
